@@ -53,7 +53,7 @@ theorem afterPosted_inv {nt : Nat} (s : St) (t : Tok) (l : Ledger) (src dst : Na
     | gas =>
       cases data with
       | other => exact h.throw
-      | pub p w => exact h.throw
+      | pub p => exact h.throw
       | notary dto till =>
         simp only []
         cases hn : notaryOnPayment s.env l src amt dto till with
@@ -74,9 +74,9 @@ theorem afterPosted_inv {nt : Nat} (s : St) (t : Tok) (l : Ledger) (src dst : Na
         cases data with
         | other => exact h.throw
         | notary dto till => exact h.throw
-        | pub p w =>
+        | pub p =>
           simp only []
-          cases hn : neoOnPayment s.env l amt p w with
+          cases hn : neoOnPayment s.env l amt p (witOf s.env (acctOf s.env p) (some s.env.gasC) s.env.neoC) with
           | none => exact h.throw
           | some l' => exact h.fin l' d1 d2 (hl0.neoOnPayment h.neoC hn)
     · rw [if_neg hc]
@@ -86,6 +86,52 @@ theorem afterPosted_inv {nt : Nat} (s : St) (t : Tok) (l : Ledger) (src dst : Na
       | throws => exact h.throw
       | cb => exact ⟨h.notary, h.neoC, hl0, h.snap⟩
 
+theorem InvG.neoPostPersistAll {nt : Nat} {dn dg k : Int} {e : Env} {l l' : Ledger}
+    (hi : InvG nt dn dg k l) (hc : ¬ (l.committee.map (fun c => (c.1, acctOf e c.1, c.2))).any (fun c => c.2.1 = nt) = true)
+    (h : neoPostPersistAll e l = some l') : InvG nt dn dg k l' := by
+  unfold Tokens.neoPostPersistAll at h
+  cases hp : Tokens.neoPostPersist e l (l.committee.map (fun c => (c.1, acctOf e c.1, c.2))) with
+  | none => simp [hp] at h
+  | some l1 =>
+    simp only [hp] at h
+    have h1 := hi.neoPostPersist hc hp
+    split at h
+    · split at h
+      · exact h1.congr (sameCore_updateNewEpoch _ _ _ h)
+      · injection h with h; subst h; exact h1
+    · injection h with h; subst h; exact h1
+
+theorem sameCore_unblockAccount (l : Ledger) (acc : Nat) : sameCore l (unblockAccount l acc).1 := by
+  unfold unblockAccount
+  split
+  · exact ⟨rfl, rfl, rfl, rfl, rfl, rfl, rfl⟩
+  · exact sameCore.rfl' _
+
+theorem InvG.blockAccount {nt : Nat} {e : Env} {l l' : Ledger} {acc : Nat} {b : Bool}
+    (hi : Inv nt l) (hnt : e.notary = nt) (h : blockAccount e l acc = some (l', b)) : Inv nt l' := by
+  unfold Tokens.blockAccount at h
+  split at h
+  · injection h with h; injection h with h1 _; subst h1; exact hi
+  · have hv := (votePre_inv e l acc none true hi).1
+    simp only [] at h
+    split at h
+    · rename_i l1 _ hvp
+      rw [hvp] at hv
+      injection h with h; injection h with h1 _; subst h1
+      exact hv.congr ⟨rfl, rfl, rfl, rfl, rfl, rfl, rfl⟩
+    · rename_i l1 hvp
+      rw [hvp] at hv
+      injection h with h; injection h with h1 _; subst h1
+      exact hv.congr ⟨rfl, rfl, rfl, rfl, rfl, rfl, rfl⟩
+    · rename_i l1 g hvp
+      rw [hvp] at hv
+      cases hm : Tokens.mintGasCb e l1 acc g with
+      | none => simp [hm] at h
+      | some l2 =>
+        simp only [hm] at h
+        injection h with h; injection h with h1 _; subst h1
+        exact (hv.mintGasCb hnt hm).congr ⟨rfl, rfl, rfl, rfl, rfl, rfl, rfl⟩
+
 theorem exec_inv {nt : Nat} (s : St) (op : Op) (h : MInv nt s) : MInv nt (exec s op) := by
   cases op with
   | block idx =>
@@ -93,48 +139,52 @@ theorem exec_inv {nt : Nat} (s : St) (op : Op) (h : MInv nt s) : MInv nt (exec s
     have hc : Inv nt (neoOnPersist { s.env with index := idx } { s.cur with events := [] }) :=
       (h.cur.congr (l' := { s.cur with events := [] }) ⟨rfl, rfl, rfl, rfl, rfl, rfl, rfl⟩).congr (sameCore_neoOnPersist _ _)
     exact ⟨h.notary, h.neoC, hc, hc⟩
-  | onPersist primary notaries txs =>
+  | onPersist pidx notaries txs =>
     simp only [exec]
     split
-    · exact h
-    · rename_i hA1
-      split
+    · exact ⟨h.notary, h.neoC, h.cur, h.snap⟩
+    · split
       · exact h
-      · rename_i hA2
-        have hp : primary ≠ nt := by
-          intro hp; apply hA1; left; rw [h.notary]; exact hp
-        have hn : ¬ notaries.contains nt = true := by
-          intro hn; apply hA1; right; rw [h.notary]; exact hn
-        have hok : txsOK nt txs := by
-          intro t ht hs
-          by_cases hx : t.nkeys.isSome = true ∧ t.payer.isSome = true
-          · exact hx
-          · exfalso; apply hA2
-            simp only [List.any_eq_true]
-            refine ⟨t, ht, ?_⟩
-            rw [h.notary]
-            simp only [hs, true_and, decide_eq_true_eq]
-            cases hk : t.nkeys <;> cases hq : t.payer <;> simp_all
-        cases h1 : gasOnPersist s.env s.cur primary txs with
-        | none => exact ⟨h.notary, h.neoC, h.cur, h.snap⟩
-        | some l1 =>
-          simp only []
-          cases h2 : notaryOnPersist s.env l1 notaries txs with
+      · rename_i hA1
+        split
+        · exact h
+        · rename_i hA2
+          have hp : acctOf s.env ((s.cur.nextVals[pidx]?).getD 0) ≠ nt := by
+            intro hp; apply hA1; left; rw [h.notary]; exact hp
+          have hn : ¬ notaries.contains nt = true := by
+            intro hn; apply hA1; right; rw [h.notary]; exact hn
+          have hok : txsOK nt txs := by
+            intro t ht hs
+            by_cases hx : t.nkeys.isSome = true ∧ t.payer.isSome = true
+            · exact hx
+            · exfalso; apply hA2
+              simp only [List.any_eq_true]
+              refine ⟨t, ht, ?_⟩
+              rw [h.notary]
+              simp only [hs, true_and, decide_eq_true_eq]
+              cases hk : t.nkeys <;> cases hq : t.payer <;> simp_all
+          cases h1 : gasOnPersist s.env s.cur (acctOf s.env ((s.cur.nextVals[pidx]?).getD 0)) txs with
           | none => exact ⟨h.notary, h.neoC, h.cur, h.snap⟩
-          | some l2 =>
-            have := InvG.onPersist h.cur h.notary hp hn hok h1 h2
-            exact ⟨h.notary, h.neoC, this, this⟩
-  | postPersist committee =>
+          | some l1 =>
+            simp only []
+            cases h2 : notaryOnPersist s.env l1 notaries txs with
+            | none => exact ⟨h.notary, h.neoC, h.cur, h.snap⟩
+            | some l2 =>
+              have := InvG.onPersist h.cur h.notary hp hn hok h1 h2
+              exact ⟨h.notary, h.neoC, this, this⟩
+  | postPersist =>
     simp only [exec]
     split
     · exact h
     · rename_i hA
-      cases hpp : neoPostPersist s.env s.cur committee with
+      cases hpp : neoPostPersistAll s.env s.cur with
       | none => exact ⟨h.notary, h.neoC, h.cur, h.snap⟩
       | some l =>
-        have : Inv nt l := h.cur.neoPostPersist (by rw [← h.notary]; exact hA) hpp
+        have : Inv nt l := h.cur.neoPostPersistAll (by
+          rw [← h.notary]
+          simpa [List.any_map, Function.comp_def] using hA) hpp
         exact ⟨h.notary, h.neoC, this, this⟩
-  | txBegin sender =>
+  | txBegin sender signers =>
     simp only [exec]
     exact ⟨h.notary, h.neoC, h.cur, h.cur⟩
   | txEnd abort =>
@@ -152,11 +202,11 @@ theorem exec_inv {nt : Nat} (s : St) (op : Op) (h : MInv nt s) : MInv nt (exec s
         simp only []
         have h' : MInv nt { s with cbs := rest } := ⟨h.notary, h.neoC, h.cur, h.snap⟩
         exact h'.fin s.cur f.d1 f.d2 h.cur
-  | transfer t src dst amt wit recv data =>
+  | transfer t src dst amt caller recv data =>
     simp only [exec]
     split
     · exact h
-    · cases hp : transferPre t s.env s.cur src dst amt (wit && src != s.env.notary) with
+    · cases hp : transferPre t s.env s.cur src dst amt (witOf s.env src caller (tokC s.env t) && src != s.env.notary) with
       | thr => exact h.throw
       | ret l b =>
         simp only []
@@ -171,7 +221,7 @@ theorem exec_inv {nt : Nat} (s : St) (op : Op) (h : MInv nt s) : MInv nt (exec s
         -- the transfer was witnessed, so the source is not the Notary contract
         have hsrc : src ≠ nt := by
           intro hs
-          have : (wit && src != s.env.notary) = false := by rw [h.notary, hs]; simp
+          have : (witOf s.env src caller (tokC s.env t) && src != s.env.notary) = false := by rw [h.notary, hs]; simp
           rw [this] at hp
           unfold transferPre at hp
           simp only [] at hp
@@ -183,12 +233,12 @@ theorem exec_inv {nt : Nat} (s : St) (op : Op) (h : MInv nt s) : MInv nt (exec s
               (if t = .gas ∧ dst = nt then amt else 0) := by simp [hsrc]
           rw [e1] at hl; exact hl
         exact afterPosted_inv s t l src dst amt recv data d1 d2 h hl' ha
-  | vote acc pub wit =>
+  | vote acc pub caller =>
     simp only [exec]
     split
     · exact h
-    · have hv := (votePre_inv s.env s.cur acc pub wit h.cur).1
-      cases hvp : votePre s.env s.cur acc pub wit with
+    · have hv := (votePre_inv s.env s.cur acc pub (witOf s.env acc caller s.env.neoC) h.cur).1
+      cases hvp : votePre s.env s.cur acc pub (witOf s.env acc caller s.env.neoC) with
       | mk l r =>
         obtain ⟨b, g⟩ := r
         rw [hvp] at hv
@@ -208,21 +258,21 @@ theorem exec_inv {nt : Nat} (s : St) (op : Op) (h : MInv nt s) : MInv nt (exec s
     split
     · exact h
     · exact h.done _ .t (h.cur.registerInternal pub)
-  | unregister pub wit =>
+  | unregister pub caller =>
     simp only [exec]
     split
     · exact h
-    · exact h.done _ _ (h.cur.unregister pub wit)
-  | lock acc till wit =>
+    · exact h.done _ _ (h.cur.unregister pub _)
+  | lock acc till caller =>
     simp only [exec]
     split
     · exact h
-    · exact h.done _ _ (h.cur.lockDeposit acc till wit)
-  | withdraw src dst wit recv =>
+    · exact h.done _ _ (h.cur.lockDeposit acc till _)
+  | withdraw src dst caller recv =>
     simp only [exec]
     split
     · exact h
-    · cases hw : withdrawPre s.env s.cur src wit with
+    · cases hw : withdrawPre s.env s.cur src (witOf s.env src caller s.env.notary) with
       | none => exact h.done s.cur .f h.cur
       | some r =>
         obtain ⟨l, amt⟩ := r
@@ -240,20 +290,40 @@ theorem exec_inv {nt : Nat} (s : St) (op : Op) (h : MInv nt s) : MInv nt (exec s
                 (if Tok.gas = Tok.gas ∧ dst.getD src = nt then amt else 0) := by simp [h.notary]; omega
             rw [e1] at hl'; exact hl'
           exact afterPosted_inv s .gas l' s.env.notary (dst.getD src) amt recv .other d1 d2 h hl'' ha
-  | setGpb gas wit =>
+  | setGpb gas caller =>
     simp only [exec]
     split
     · exact h
-    · cases hs : setGasPerBlock s.env s.cur gas wit with
+    · cases hs : setGasPerBlock s.env s.cur gas (witCommittee s.env s.cur caller s.env.neoC) with
       | none => exact h.throw
       | some l => exact h.done l .null (h.cur.congr (sameCore_setGasPerBlock _ _ _ _ _ hs))
-  | setRegPrice price wit =>
+  | setRegPrice price caller =>
     simp only [exec]
     split
     · exact h
-    · cases hs : setRegisterPrice s.cur price wit with
+    · cases hs : setRegisterPrice s.cur price (witCommittee s.env s.cur caller s.env.neoC) with
       | none => exact h.throw
       | some l => exact h.done l .null (h.cur.congr (sameCore_setRegisterPrice _ _ _ _ hs))
+  | blockAcc acc caller =>
+    simp only [exec]
+    split
+    · exact h
+    · split
+      · exact h.throw
+      · split
+        · exact h.throw
+        · cases hb : blockAccount s.env s.cur acc with
+          | none => exact h.throw
+          | some r =>
+            obtain ⟨l, b⟩ := r
+            exact h.done l _ (h.cur.blockAccount h.notary hb)
+  | unblockAcc acc caller =>
+    simp only [exec]
+    split
+    · exact h
+    · split
+      · exact h.throw
+      · exact h.done _ _ (h.cur.congr (sameCore_unblockAccount _ _))
 
 theorem step_inv {nt : Nat} (s : St) (op : Op) (h : MInv nt s) : MInv nt (step s op) := by
   unfold step
